@@ -192,7 +192,7 @@ func (g *genCtx) nextEvent(family string) sut.Event {
 	if c.EmailAuth && (c.Has("totp") || c.Has("sms")) {
 		acts = append(acts, "EmailVerifyStart", "EmailVerifyEnd", "EmailVerifyEnd")
 	}
-	acts = append(acts, "UpdatePassword", "AppKey")
+	acts = append(acts, "UpdatePassword", "AppKey", "Get", "Get")
 	e.Act = acts[g.rng.Intn(len(acts))]
 	e.B = g.browser()
 	existing := []string{}
@@ -281,6 +281,9 @@ func (g *genCtx) nextEvent(family string) sut.Event {
 		e.Junk = g.pick("garbage", "nosep", "forged", "hash")
 	case "AppKey":
 		e.K = g.pick("app1", "app2")
+	case "Get":
+		e.K = g.pick("login", "register", "recover", "recoverEnd", "otpLogin", "otpAdd", "otpClear", "totpConfirm", "totpRemove",
+			"totpValidate", "smsConfirm", "smsRemove", "smsValidate", "recoveryRegen", "totpEmailVerify", "smsEmailVerify")
 	case "OtpLoginPost":
 		e.Pid = g.pid()
 		e.Tok = g.idOrJunk(iss["otp"], 0.3)
